@@ -134,15 +134,59 @@ def replay_body(A, Bn, objA, objB, job):
     return body(A, Bn, objA, objB, job)
 
 
+def hashseed_replay(wit, fails=None):
+    """cross-process replay: one plain diff of the witness per PYTHONHASHSEED in fresh interpreters (no stub, no proxy);
+    differing cost or script order between seeds reproduces a set-order dependence that one process cannot show"""
+    import json
+    import os
+    import subprocess
+    import sys
+    outs = []
+    for seed in ('1', '2', '3', '4'):
+        env = dict(os.environ, PYTHONHASHSEED=seed, PYTHONPATH=common.ROOT)
+        try:
+            p = subprocess.run([sys.executable, '-m', 'verif.props.c07'], input=json.dumps(wit), capture_output=True, text=True,
+                               timeout=60, env=env, cwd=common.ROOT)
+        except subprocess.TimeoutExpired:
+            return set()
+        if p.returncode != 0:
+            return set()
+        outs.append(p.stdout.strip().splitlines()[-1] if p.stdout.strip() else '')
+    tags = set()
+    if len(set(outs)) > 1:
+        costs = set(json.loads(o)[0] for o in outs if o)
+        tags.add('script-differs-between-runs')
+        if len(costs) > 1:
+            tags.add('cost-differs-between-runs')
+    return tags
+
+
+def _child_main():
+    import json
+    import sys
+    wit = json.load(sys.stdin)
+    import logging
+    logging.disable(logging.CRITICAL)
+    import graphtage.printer as gpr
+    gpr.DEFAULT_PRINTER.quiet = True
+    objA, objB = th.from_witness(wit['A']), th.from_witness(wit['B'])
+    opts = th.build_options(wit.get('dict', 'auto'), wit.get('list', 'on'))
+    A, Bn = th.to_tree(objA, opts), th.to_tree(objB, opts)
+    cost, sig = one_diff(A, Bn)
+    print(json.dumps([cost, sig]))
+
+
 def run_job(job):
     th.install()
     install_sched()
-    return th.run_tree_job(job, body, site_default='TreeNode.diff', hang_tags=False)
+    return th.run_tree_job(job, body, site_default='TreeNode.diff', hang_tags=False, extra_replay=hashseed_replay)
 
 
 def replay_witness(w):
     r = th.replay(w, body)
-    return ', '.join(sorted(set(f['tag'] + '@' + str(f['site']) for f in r))) if r else None
+    tags = set(f['tag'] + '@' + str(f['site']) for f in r)
+    tags |= set(t + '@cross-process' for t in hashseed_replay(w))
+    return ', '.join(sorted(tags)) if tags else None
 
 
 def jobs(tier, seed):
@@ -171,8 +215,9 @@ def jobs(tier, seed):
 META = dict(functions=th.TREE_FUNCTIONS + ["TreeNode.make_edited / editable_dict (copy before annotate)", "FixedKeyDictNode._child_edits "
                                             "(set iteration)", "HashableCounter / DictNode.from_dict ordering"],
             stubs=th.TREE_STUBS + ["set() inside graphtage.graphtage -> set with engine-chosen iteration order (models the string hash seed)"],
-            assumptions=th.TREE_ASSUME + ["hash-seed variation is modelled in-process through set iteration order; byte-identity across real "
-                                          "processes is only exercised when a counterexample is replayed"],
+            assumptions=th.TREE_ASSUME + ["hash-seed variation is modelled in-process through set iteration order; a counterexample that one "
+                                          "process cannot reproduce is replayed in fresh interpreters under PYTHONHASHSEED=1..4 (plain diff, no "
+                                          "stub) and counts only if cost or script order differ between seeds"],
             files=th.TREE_FILES + ["graphtage/utils.py"],
             outside=["id()-based tie-break in BoundedComparator (not reached by tree diffs; covered with symbolic items in C17)",
                      "rendered bytes (C06/C13 render the same scripts)"])
@@ -183,3 +228,7 @@ bounds_text = th.tree_bounds_text
 def pre(tier, seed):
     from .. import conformance
     return conformance.tree_pre(seed)
+
+
+if __name__ == '__main__':
+    _child_main()
